@@ -80,6 +80,9 @@ inline Rot orthonormal_transform()
         {
             double dot = r.m[3 * i] * r.m[3 * j] + r.m[3 * i + 1] * r.m[3 * j + 1] + r.m[3 * i + 2] * r.m[3 * j + 2];
             verif_assume(verif_approx_eq(dot, i == j ? 1.0 : 0.0, 1.0));
+            // R R^T = I implies R^T R = I: stated as well (a consequence, hence no restriction) because the nonlinear solvers do not derive it
+            double cdot = r.m[i] * r.m[j] + r.m[3 + i] * r.m[3 + j] + r.m[6 + i] * r.m[6 + j];
+            verif_assume(verif_approx_eq(cdot, i == j ? 1.0 : 0.0, 1.0));
         }
     return r;
 }
@@ -171,7 +174,9 @@ VERIF_OBLIGATION(obl_c12_transform_simple)
     Real3 x = t.transform_down(xp);
     verif_reach("transform");
     {
-        Plane p(vec("pn"), num("pd"));
+        Real3 pn = vec("pn");
+        verif_assume(verif_approx_eq(pn[0] * pn[0] + pn[1] * pn[1] + pn[2] * pn[2], 1.0, 1.0));  // Plane precondition: unit normal
+        Plane p(pn, num("pd"));
         verif_assert(verif_close(f_plane(transform(p), xp), f_plane(p, x), 1.0), "transformed Plane");
     }
     {
